@@ -85,3 +85,9 @@ def _explained(fid):
 CLASSIFIERS["k1_xarray_one_sided_window"] = _explained("K-1")
 CLASSIFIERS["k2_xarray_time_not_coordinate"] = _explained("K-2")
 CLASSIFIERS["k3_xarray_end_inclusive"] = _explained("K-3")
+
+
+@classifier("k7_store_column_collision")
+def k7(site, case, info):
+    """PandasStore.save: two collected results whose <stream>.<module>.<test> names are equal after CF sanitising."""
+    return site == "PandasStore.save" and info.get("shared_column") is True and info.get("collision") is True
